@@ -51,19 +51,29 @@ dst = os.path.join(VERIF, "seeded", name)
 os.makedirs(dst, exist_ok=True)
 shutil.copy(os.path.join(wt, "patch.diff"), os.path.join(dst, "patch.diff"))
 shutil.copy(os.path.join(wt, demo), os.path.join(dst, demo))
-# run the check against /repo with the change applied
-ap = sh(f"git -C /repo apply {dst}/patch.diff")
-if ap.returncode != 0:
-    print("patch does not apply to /repo HEAD:", ap.stderr)
+# run the check against /repo with the change applied (or, when CONFIRM_VIA_WORKTREE=1 because another run is using /repo, against the
+# scratch worktree - which has the change applied - through VERIF_REPO)
+via_wt = os.environ.get("CONFIRM_VIA_WORKTREE") == "1"
+cmd = f"./check {prop} --tier {tier} --no-evidence" + (f" --only '{only}'" if only else "")
+if via_wt:
+    c = sh(cmd, cwd=VERIF, env=dict(os.environ, VERIF_REPO=wt))
+    applies = True
+else:
+    ap = sh(f"git -C /repo apply {dst}/patch.diff")
+    applies = ap.returncode == 0
+    if applies:
+        try:
+            c = sh(cmd, cwd=VERIF)
+        finally:
+            sh("git -C /repo checkout -- .")
+    else:
+        print("patch does not apply to /repo HEAD:", ap.stderr)
+if not applies:
     detect = {"applies": False}
 else:
-    try:
-        cmd = f"./check {prop} --tier {tier} --no-evidence" + (f" --only '{only}'" if only else "")
-        c = sh(cmd, cwd=VERIF)
-    finally:
-        sh("git -C /repo checkout -- .")
     viol = [l.strip() for l in c.stdout.splitlines() if l.strip().startswith("lemma=") or l.strip().startswith("premise=")]
-    detect = {"applies": True, "check_cmd": cmd, "exit_code": c.returncode, "violations": viol[:12]}
+    detect = {"applies": True, "check_cmd": cmd, "run_against": (f"scratch worktree {wt} via VERIF_REPO" if via_wt else "/repo with the patch applied, undone afterwards"),
+              "exit_code": c.returncode, "violations": viol[:12]}
     print("check exit", c.returncode, "violations:", *viol[:6], sep="\n  ")
 meta = {"property": prop, "needs_to_manifest": needs, "demo": demo,
         "confirmed": {"suite_passed_with_change": passed_with, "baseline_tests_missing_with_change": missing_with,
